@@ -124,6 +124,33 @@ pub fn run(args: &Args, report: &Report) {
             };
             let outs = outcomes(&plan.txs, &produced);
             count_production(&c.report, "c02", &plan, &outs, &produced);
+            for (p, o) in plan.txs.iter().zip(outs.iter()) {
+                if p.checked == chaingen::CheckedMode::FullyChecked {
+                    // did the hand-over really carry a fully checked transaction?
+                    use chaingen::fuel_core_types::fuel_vm::checked_transaction::IntoChecked;
+                    let full = p.tx.clone().into_checked(plan.height.into(), &sess.params).is_ok();
+                    let what = match o {
+                        Outcome::Success | Outcome::Failed => "executed".to_string(),
+                        Outcome::Skipped(_) => "skipped".to_string(),
+                        Outcome::Leftover => "leftover".to_string(),
+                    };
+                    c.report.count(&format!(
+                        "c02.fully_checked.{}.{:?}.{what}",
+                        if full { "passes_pool_checks" } else { "fails_pool_checks" },
+                        p.twist
+                    ));
+                    if full {
+                        match o {
+                            Outcome::Skipped(e) if e.ends_with("CoinMismatch") => c.report.count("c02.fully_checked_coin_mismatch_refused"),
+                            Outcome::Skipped(e) if e.ends_with("MessageMismatch") => c.report.count("c02.fully_checked_message_mismatch_refused"),
+                            Outcome::Skipped(e) if e.ends_with("CoinDoesNotExist") => c.report.count("c02.fully_checked_missing_or_spent_coin_refused"),
+                            Outcome::Skipped(e) if e.ends_with("MessageSpendTooEarly") => c.report.count("c02.fully_checked_message_too_early_refused"),
+                            Outcome::Success | Outcome::Failed => c.report.count("c02.fully_checked_executed"),
+                            _ => {}
+                        }
+                    }
+                }
+            }
             let replay = || {
                 case.replay(
                     plan.height,
@@ -344,6 +371,11 @@ pub fn run(args: &Args, report: &Report) {
         }
     });
     if args.replay.is_none() {
+        report.require("c02.fully_checked_coin_mismatch_refused", args.by_tier(200, 2_000));
+        report.require("c02.fully_checked_message_mismatch_refused", args.by_tier(100, 1_000));
+        report.require("c02.fully_checked_missing_or_spent_coin_refused", args.by_tier(200, 2_000));
+        report.require("c02.fully_checked_message_too_early_refused", args.by_tier(100, 1_000));
+        report.require("c02.fully_checked_executed", args.by_tier(2_000, 20_000));
         report.require("c02.nontrivial_blocks", args.by_tier(2900, 29000));
         report.require("c02.coins_consumed", args.by_tier(15000, 150000));
         report.require("c02.coins_created", args.by_tier(22000, 220000));
